@@ -33,8 +33,10 @@ structure SnapshotCase where
   lockFirst : String
   /-- second statement is `defer typedOther.lock.<this>()` -/
   deferRelease : String
-  /-- the returned expression -/
-  returns : String
+  /-- EVERY return expression of the case, in source order (nested blocks included) -/
+  returns : List String
+  /-- statements of the case body -/
+  stmts : Nat
 deriving DecidableEq, Repr
 
 /-- the type switch of one binary operation of `bitmap32` / `bitmap64` -/
@@ -74,11 +76,12 @@ def WrapperMethod.isLockDelegateUnlock (m : WrapperMethod) : Bool :=
   m.operandCalls == 0 &&
   (if m.operandParam then m.snapshotStmts == 1 && m.stmts == 4 else m.snapshotStmts == 0 && m.stmts == 3)
 
-/-- `snapshotOperand`: each wrapper type is cloned under ITS OWN lock (`Lock(); defer Unlock(); return
-typedOther.provider.Clone()`), anything else is returned unchanged -/
+/-- `snapshotOperand`: each wrapper type is cloned under ITS OWN lock — the case body is exactly `Lock(); defer Unlock();
+return typedOther.provider.Clone()`, and that is its ONLY return path (no path hands out the wrapper's live inner
+provider, whatever its content); anything that is not a wrapper is returned unchanged (`other`) -/
 def expectedSnapshotCases : List SnapshotCase :=
-  [{ types := ["threadSafeDuplex[T]"], lockFirst := "Lock", deferRelease := "Unlock", returns := "typedOther.provider.Clone()" },
-   { types := ["threadSafeSimplex[T]"], lockFirst := "Lock", deferRelease := "Unlock", returns := "typedOther.provider.Clone()" }]
+  [{ types := ["threadSafeDuplex[T]"], lockFirst := "Lock", deferRelease := "Unlock", returns := ["typedOther.provider.Clone()"], stmts := 3 },
+   { types := ["threadSafeSimplex[T]"], lockFirst := "Lock", deferRelease := "Unlock", returns := ["typedOther.provider.Clone()"], stmts := 3 }]
 
 def duplexMethods : List String :=
   ["Add", "And", "AndNot", "Cardinality", "CheckedAdd", "Clear", "Clone", "Contains", "Each", "Or", "Remove", "Slice", "Xor"]
